@@ -43,14 +43,14 @@ func stateIs(v string) FactM { return FCmp("==", MField("CurrentStepState"), MCo
 
 func runC02(c *Ctx) {
 	p := c.Prog
-	c.Rule("R2.1", "every store to the step sub-state is dominated by the gate of the transition it performs", 24)
-	c.Rule("R2.1i", "every store to the step index is one of: 1 (init/rollback), idx+1 from Ready with steps left, validated jump target, len(steps) on first deployment", 7)
-	c.Rule("R2.1k", "whenever the step index is written, the next-step index is re-derived from it (NextBatchIndex) before the function returns", 7)
+	c.Rule("R2.1", "every store to the step sub-state is dominated by the gate of the transition it performs", 14)
+	c.Rule("R2.1i", "every store to the step index is one of: 1 (init/rollback), idx+1 from Ready with steps left, validated jump target, len(steps) on first deployment", 4)
+	c.Rule("R2.1k", "whenever the step index is written, the next-step index is re-derived from it (NextBatchIndex) before the function returns", 4)
 	c.Rule("R2.1j", "the jump compares the target step's replicas with the step that was current before the cursor moved", 2)
 	c.Rule("R2.2", "doCanaryUpgrade reports done only under the four BatchRelease facts and runBatchRelease done", 2)
 	c.Rule("R2.3", "doCanaryPaused reports done only after the pause duration elapsed (or the 100% last-step shortcut)", 3)
-	c.Rule("R2.4", "no handler that can make progress runs while the rollout is paused", 5)
-	c.Rule("R2.5", "each gate function is reachable only through the case of its own state", 8)
+	c.Rule("R2.4", "no handler that can make progress runs while the rollout is paused", 3)
+	c.Rule("R2.5", "each gate function is reachable only through the case of its own state", 5)
 
 	sc, ok := loadStepConsts(c, "R2.1")
 	if !ok {
